@@ -46,6 +46,32 @@ let handle line =
         | Err -> "E:err"
         | Panic -> "PANIC model")
      | _ -> "newerr")
+  | [_; "sivks"; entries; pi; pt; ad; j; mu] ->
+    (* keyset of several AES-SIV keys: Encrypt = the primary's daead_encrypt; Decrypt tries the keys whose
+       output prefix starts the ciphertext, then the RAW keys (the walk of daead_factory.go; as a theorem
+       this walk is the subject of C05 - here it is composed in the handler from the per-key model) *)
+    let es = List.map (fun e -> match split ',' e with
+      | [v; id; k] -> ((match v with "T" -> VTink | "C" -> VCrunchy | _ -> VNoPrefix), n_of_dec id, unhex k)
+      | _ -> failwith "sivks entry") (split ';' entries) in
+    let pt = unhex pt and ad = unhex ad in
+    let nth l i = List.nth l (int_of_string i) in
+    let enc (v, id, k) = daead_encrypt aes_enc v id k pt ad in
+    let prefix_len v = match v with VNoPrefix -> 0 | _ -> 5 in
+    let starts (v, id, k) c =
+      (* the key's output prefix is what its own ciphertext starts with *)
+      match daead_encrypt aes_enc v id k [] [] with
+      | Ok c0 -> prefix_len v > 0 && List.length c >= 5 && take 5 c = take 5 c0
+      | _ -> false in
+    let dec c =
+      let cands = List.filter (fun e -> starts e c) es @ List.filter (fun (v, _, _) -> v = VNoPrefix) es in
+      let rec go = function
+        | [] -> Err
+        | (v, id, k) :: r -> (match daead_decrypt aes_enc v id k c ad with Ok p -> Ok p | _ -> go r) in
+      go cands in
+    (match enc (nth es pi), enc (nth es j) with
+     | Ok ct, Ok ctj ->
+       "E:" ^ hexs ct ^ "|D:" ^ out_str (dec ct) ^ "|X:" ^ out_str (dec ctj) ^ "|M:" ^ out_str (dec (mutate mu ctj))
+     | _ -> "E:err")
   | [_; "kwp"; kek; data; mu] ->
     (* the API model of the totality theorems: NewKWP (KEK size rule) then Wrap / Unwrap *)
     let kek = unhex kek and data = unhex data in
